@@ -160,3 +160,83 @@ Example C14_csv_warnings_nonvacuous :
     /\ w_bom w = true /\ w_defective w = Some 1%nat /\ w_fields w = Some (1, 1, 2, 2)%nat.
 Proof. vm_compute. do 2 eexists. repeat split. Qed.
 Print Assumptions C14_csv_warnings_nonvacuous.
+
+(* ------------------------------------------------------------------ the static phase in full (Static2.v) *)
+From RBQL Require Import Static2 Static2_Proofs.
+
+(* Every check of shallow_parse_input_query that is decided before the first input record - the three of static_check and:
+   SELECT together with UPDATE, FROM naming an unknown table / no FROM and no bound input (Python), unknown column name,
+   column name unusable as a variable, JOIN without a registry / with an unknown table / with an unknown b-column, a header on
+   one table only, unresolvable ON sides, a join record lacking a key field, `=` in WHERE, UPDATE of an unknown field, LIMIT
+   without an integer, unknown field in EXCEPT - fires before the output writer sees anything (no set_header, hence no write
+   and no finish: the engine's loop is not entered, o_chain = chain_init) and before any input record is pulled (o_pulls = 0);
+   its class is IO handling for the two input / configuration checks (tags 24, 27), query execution naming the B record for
+   the join record (tag 28), parsing for every mistake of the query text.  tr = the calls the caller's registry and iterators
+   have seen up to the failure. *)
+Theorem C14_static2_before_output :
+  forall (expr : Type) (eval : env -> expr -> res val) w r (q : query expr) hdr A B tr c tag nr,
+    static2 r = (tr, Some (c, tag, nr)) ->
+    query2 eval w r q hdr A B
+      = (tr, {| o_chain := chain_init; o_pulls := 0;
+                o_error := Some (c, nr, match c with CRuntime => XRuntime tag | _ => XParsing tag end) |})
+    /\ ~ In ESetHeader tr /\ c = class_of_tag tag /\ (nr <> 0%nat -> tag = 28%N).
+Proof. exact query2_static_failure. Qed.
+Print Assumptions C14_static2_before_output.
+
+(* a static phase that passes calls set_header exactly once, as its last act (then the loop starts) *)
+Theorem C14_static2_pass_header_last : forall r tr, static2 r = (tr, None) ->
+  exists tr0, tr = tr0 ++ [ESetHeader] /\ ~ In ESetHeader tr0.
+Proof. exact static2_pass_header_last. Qed.
+Print Assumptions C14_static2_pass_header_last.
+
+(* with the input iterator handed over by the caller the two ports run the same checks in the same order *)
+Theorem C14_static2_ports_agree : forall r, r_bound r = true -> static2 (with_port PPy r) = static2 (with_port PJs r).
+Proof. exact static2_ports_agree. Qed.
+Print Assumptions C14_static2_ports_agree.
+
+(* on a request without any of the new mistakes the static phase decides exactly as Engine.static_check does *)
+Theorem C14_static2_refines_static_check : forall (expr : Type) (r : sreq) (q : query expr),
+  coherent r q -> clean r ->
+  snd (static2 r) = option_map (fun t => (CParsing, t, 0%nat)) (static_check q).
+Proof. exact static2_refines_static_check. Qed.
+Print Assumptions C14_static2_refines_static_check.
+
+(* one example per check (the failing check's class, tag, record number), and a request that passes *)
+Example C14_static2_examples :
+  let j := {| j_registry := true; j_found := true; j_vars_ok := true; j_hdr := false; j_keys_ok := true; j_nb := 3%nat; j_short := None |} in
+  let mk p bd fr st vo no hd od gp jn wa uu lb ex :=
+    {| r_port := p; r_bound := bd; r_from := fr; r_stmt := st; r_vars_ok := vo; r_names_ok := no; r_hdr := hd; r_order := od;
+       r_group := gp; r_join := jn; r_where_assign := wa; r_upd_unknown := uu; r_limit_bad := lb; r_except := ex |} in
+  map static2
+    [ mk PPy true None SBothSU true true false false false None false false false None;
+      mk PPy false (Some false) SSelect true true false false false None false false false None;
+      mk PPy false None SSelect true true false false false None false false false None;
+      mk PJs true None SSelect false true true false false None false false false None;
+      mk PJs true None SSelect true false true false false None false false false None;
+      mk PPy true None SUpdate true true false true false None false false false None;
+      mk PPy true None SSelect true true false true true None false false false None;
+      mk PPy true None SSelect true true false false false (Some {| j_registry := false; j_found := true; j_vars_ok := true; j_hdr := false; j_keys_ok := true; j_nb := 3%nat; j_short := None |}) false false false None;
+      mk PJs true None SSelect true true false false false (Some {| j_registry := true; j_found := false; j_vars_ok := true; j_hdr := false; j_keys_ok := true; j_nb := 3%nat; j_short := None |}) false false false None;
+      mk PJs true None SSelect true true false false false (Some {| j_registry := true; j_found := true; j_vars_ok := false; j_hdr := false; j_keys_ok := true; j_nb := 3%nat; j_short := None |}) false false false None;
+      mk PPy true None SSelect true true true false false (Some j) true false false None;
+      mk PPy true None SSelect true true false false false (Some {| j_registry := true; j_found := true; j_vars_ok := true; j_hdr := false; j_keys_ok := false; j_nb := 3%nat; j_short := None |}) false false false None;
+      mk PJs true None SSelect true true false false false (Some {| j_registry := true; j_found := true; j_vars_ok := true; j_hdr := false; j_keys_ok := true; j_nb := 3%nat; j_short := Some 2%nat |}) true false false None;
+      mk PPy true None SSelect true true false false false (Some j) true false true (Some false);
+      mk PPy true None SUpdate true true false false false None false true false None;
+      mk PJs true None SSelect true true false false false None false false true (Some false);
+      mk PJs true None SSelect true true false false false (Some j) false false false (Some true);
+      mk PPy true None SSelect true true false false false None false false false (Some false);
+      mk PPy false (Some true) SSelect true true false false false (Some j) false false false None ]
+  = [ ([], Some (CParsing, 20%N, 0%nat)); ([ELookA], Some (CParsing, 21%N, 0%nat)); ([], Some (CParsing, 22%N, 0%nat));
+      ([EVarsA], Some (CParsing, 23%N, 0%nat)); ([EVarsA], Some (CIO, 24%N, 0%nat)); ([EVarsA], Some (CParsing, 10%N, 0%nat));
+      ([EVarsA], Some (CParsing, 11%N, 0%nat)); ([EVarsA], Some (CParsing, 25%N, 0%nat)); ([EVarsA; ELookB], Some (CParsing, 26%N, 0%nat));
+      ([EVarsA; ELookB; EVarsB], Some (CParsing, 33%N, 0%nat)); ([EVarsA; ELookB; EVarsB], Some (CIO, 27%N, 0%nat));
+      ([EVarsA; ELookB; EVarsB], Some (CParsing, 34%N, 0%nat));
+      ([EVarsA; ELookB; EVarsB; EPullB; EPullB], Some (CRuntime, 28%N, 2%nat));
+      ([EVarsA; ELookB; EVarsB; EPullB; EPullB; EPullB], Some (CParsing, 29%N, 0%nat));
+      ([EVarsA], Some (CParsing, 30%N, 0%nat)); ([EVarsA], Some (CParsing, 31%N, 0%nat));
+      ([EVarsA; ELookB; EVarsB; EPullB; EPullB; EPullB], Some (CParsing, 12%N, 0%nat));
+      ([EVarsA], Some (CParsing, 32%N, 0%nat));
+      ([ELookA; EVarsA; ELookB; EVarsB; EPullB; EPullB; EPullB; ESetHeader], None) ].
+Proof. vm_compute. reflexivity. Qed.
+Print Assumptions C14_static2_examples.
